@@ -455,3 +455,72 @@ def run_pairs(run, pairs, procs=16):
         if len(run.samples) < 8:
             run.sample({"pair": r["id"], "macro_rule": tpl["doc_a"], "extra_macro_files": tpl.get("macros_a"), "inlined_rule": tpl["doc_b"], "identical_text": r["identical"], "obligations": [(o["lemma"], o["dir"], o["verdict"]) for o in r["obl"]]})
     return results
+
+
+# ------------------------------------------------------------------ translator validation on the repo's own pairs
+def repo_pairs_validation(run, max_listing_bytes=400000, window=1200):
+    """The repo's (rule, listing) test pairs through both the real engine and the encoding (ground membership in z3):
+    where the real engine finds a match the matched window must be a member of the translated language; record starts
+    before the leftmost match (or the first ones of a listing without a match) must be non-members (look-ahead free
+    rules only, because the window is truncated)."""
+    import os
+
+    import regex
+    import yaml
+
+    from . import jasmapi
+    from .common import REPO
+
+    U, _ = worlds()
+    cfgp = os.path.join(REPO, "tests/configuration.yaml")
+    try:
+        cfg = yaml.safe_load(open(cfgp))
+    except Exception as e:
+        run.inconc(f"repo pair validation: cannot read {cfgp}: {e}")
+        return
+    from jasm.jasm_regex.yaml2regex import Yaml2Regex
+
+    done = 0
+    for e in cfg.get("test_matching", []):
+        if "assembly" not in e:
+            continue
+        ap = os.path.join(REPO, e["assembly"])
+        if not os.path.exists(ap) or os.path.getsize(ap) > max_listing_bytes or os.path.getsize(ap) == 0:
+            continue
+        try:
+            R = Yaml2Regex(os.path.join(REPO, e["yaml"]), macros_from_terminal=[os.path.join(REPO, m) for m in e.get("macros", [])] or None).produce_regex()
+            ast, ng = rx.parse(R)
+            if ng or rx.has_bref(ast):
+                continue
+            tr = rx.Tr(U)
+            L0 = tr.lang(ast, U.ANY, (0,), (0,))
+        except (Unsupported, Exception):
+            continue
+        stream = jasmapi.parse_listing(open(ap).read())
+        if any(ord(c) not in U.alphabet for c in stream[:200000]):
+            continue
+        m = regex.search(R, stream, timeout=60)
+        starts = [0] + [i + 1 for i, c in enumerate(stream[:20000]) if c == "|"]
+
+        def member(text):
+            s = z3.Solver()
+            s.set("timeout", 30000)
+            s.add(z3.InRe(z3.StringVal(text), L0))
+            return str(s.check())
+
+        if m:
+            end = stream.find("|", min(len(stream) - 1, m.end() + window))
+            v = member(stream[m.start(): (end + 1) if end >= 0 else len(stream)])
+            done += 1
+            if v == "unsat":
+                run.harness_error(f"repo pair {e['title']}: real engine matches at offset {m.start()} but the window is not in the translated language")
+        if not rx.has_la(ast):
+            before = [p for p in starts if (m is None or p < m.start())][:4]
+            for p in before:
+                end = stream.find("|", min(len(stream) - 1, p + window))
+                v = member(stream[p: (end + 1) if end >= 0 else len(stream)])
+                done += 1
+                if v == "sat" and regex.compile(R).match(stream[p: (end + 1) if end >= 0 else len(stream)]) is None:
+                    run.harness_error(f"repo pair {e['title']}: record start {p} is a member of the translated language but the real engine does not match there")
+    run.count("repo_pairs_ground_checks", done)
+    run.count("traces_validated_end_to_end", done)
